@@ -6,7 +6,7 @@ pid, name, rel, old, new = sys.argv[1:6]
 which = int(sys.argv[6]) if len(sys.argv) > 6 else None
 repo = os.environ.get("VQ_REPO", "/repo")
 src = open(os.path.join(repo, rel)).read()
-old = old.encode().decode("unicode_escape"); new = new.encode().decode("unicode_escape")
+old = old.replace("\\n", "\n"); new = new.replace("\\n", "\n")
 n = src.count(old)
 if n == 0:
     sys.exit(f"pattern not found in {rel}")
